@@ -335,6 +335,16 @@ def column_layout(lexemes, kinds):
     return "".join(out) + "\n"
 
 
+def paragraph_layout(lexemes, kinds, rng):
+    """every token on a line of its own with one or more blank lines (empty, blanks, a tab, CR LF) between them"""
+    out = []
+    for i, lx in enumerate(lexemes):
+        out.append(lx)
+        if i + 1 < len(lexemes):
+            out.append("" if (kinds[i] == "' in '" or kinds[i + 1] == "' in '") else rng.choice(["\n\n", "\n\t\n", "\r\n\r\n", "\n  \n", "\n\n\n", "\n"]))
+    return "".join(out) + "\n"
+
+
 def layout(lexemes, kinds, rng, aggressive=True):
     """Re-lay-out a token sequence with random white space at every token boundary (outside string
     literals). The ' in ' token keeps exactly its own blanks (see known finding C14:in-whitespace)."""
